@@ -42,7 +42,8 @@ G = {
 }
 NTS = ["<start>", "<a>", "<b>", "<c>", "<w>"]
 TERMS = ["x", "y", "zz", "", "(", ")", "q", " ", "é", '"', "\\", "\n", "w", "!"]
-LITERALS = ["a", 'a"b', "a\\b", "é", "a\nb", "\x00", 'ab\\"', "日本", 'a""b', "\\", '"', "", "\t", "\xff", "x y", "<a>", "{}", "\\u{41}", "'", "ü\"ß"]
+LITERALS = ["a", 'a"b', "a\\b", "é", "a\nb", "\x00", 'ab\\"', "日本", 'a""b', "\\", '"', "", "\t", "\xff", "x y", "<a>", "{}", "\\u{41}", "'", "ü\"ß",
+            "a  b", "    ", " \t \n ", "  lead", "trail  ", "(a b)", ") (", ";; comment", "a\r\nb", "\\n", "|x|", "#b101", "-1", "\x7f", "\U0001F600", "a" * 70]
 
 POOL_CAP = 10
 MAX_NODES = 150
@@ -330,8 +331,13 @@ class TreeWorld:
             "leaves": [(p, n.id) for p, n in t.leaves()],
         }
         if self.grammatical(m):
-            obs["k2"] = sorted(map(str, t.k_paths(self.graph, 2)))
-            obs["k1c"] = sorted(map(str, t.k_paths(self.graph, 1, include_potential_paths=False)))
+            # alternating order of concrete / potential queries for the same k
+            for k in (1, 2, 3):
+                first_concrete = (k + len(self.ops)) % 2 == 0
+                for concrete in ((True, False) if first_concrete else (False, True)):
+                    key = f"k{k}{'c' if concrete else 'p'}"
+                    obs[key] = sorted(map(str, t.k_paths(self.graph, k, include_potential_paths=not concrete)))
+            obs["kcov"] = round(t.k_coverage(self.graph, 2), 6)
         return obs
 
     def _serial(self, ti: int, how: str, observe_before: bool):
@@ -377,12 +383,18 @@ class TreeWorld:
         if before is not None and after != before:
             diff = [k for k in before if before[k] != after.get(k)]
             raise Failure("C17", f"{how}_changes_original", f"observers differ: {diff}")
-        # the decoded object must be a fully working tree, too
+        # the decoded object must be a fully working tree, too, and behave like the
+        # original under every observer (ids are preserved except by the CLI JSON)
         try:
             self.check_tree(t2, m2)
-            if self.grammatical(m2):
-                t2.k_paths(self.graph, 2)
+            obs2 = self.observe(t2, m2)
+            skip = {"hash_eq_self"} | ({"full", "paths", "trie", "leaves"} if how == "cli_json" else set())
+            diff = [k for k in after if k not in skip and after[k] != obs2.get(k)]
+            if diff:
+                raise Failure("C17", f"{how}_decoded_tree_behaves_differently", f"observers differ from the original's: {diff}")
         except Failure as f:
+            if f.clause.endswith("_decoded_tree_behaves_differently"):
+                raise
             raise Failure("C17", f"{how}_decoded_tree_inconsistent", f.detail)
         except Exception as exc:
             raise Failure("C17", f"{how}_decoded_tree_unusable", f"{type(exc).__name__}: {exc}")
